@@ -31,30 +31,33 @@ def firstInfo (p0 : Nat) : Nat × Nat × Nat :=
 /-- continuation byte `locb ≤ b ≤ hicb` -/
 def isCont (b : Nat) : Bool := 0x80 ≤ b && b ≤ 0xBF
 
+/-- the multi-byte part of `utf8.DecodeRune`: `sz` = expected size (2..4), `lo..hi` = accept range of the second byte -/
+def decodeMulti (sz lo hi p0 : Nat) (tl : Bytes) : Nat × Nat :=
+  if tl.length + 1 < sz then (runeError, 1) else
+  match tl with
+  | [] => (runeError, 1)
+  | b1 :: tl1 =>
+    if b1 < lo || hi < b1 then (runeError, 1)
+    else if sz ≤ 2 then (p0 % 32 * 64 + b1 % 64, 2)
+    else match tl1 with
+      | [] => (runeError, 1)
+      | b2 :: tl2 =>
+        if !isCont b2 then (runeError, 1)
+        else if sz ≤ 3 then ((p0 % 16 * 64 + b1 % 64) * 64 + b2 % 64, 3)
+        else match tl2 with
+          | [] => (runeError, 1)
+          | b3 :: _ =>
+            if !isCont b3 then (runeError, 1)
+            else (((p0 % 8 * 64 + b1 % 64) * 64 + b2 % 64) * 64 + b3 % 64, 4)
+
 /-- `utf8.DecodeRune(p)`: `(rune, size)` -/
 def decodeRune : Bytes → Nat × Nat
   | [] => (runeError, 0)
   | p0 :: tl =>
-    match firstInfo p0 with
-    | (1, _, _) => (p0, 1)
-    | (0, _, _) => (runeError, 1)
-    | (sz, lo, hi) =>
-      if tl.length + 1 < sz then (runeError, 1) else
-      match tl with
-      | [] => (runeError, 1)
-      | b1 :: tl1 =>
-        if b1 < lo || hi < b1 then (runeError, 1)
-        else if sz ≤ 2 then (p0 % 32 * 64 + b1 % 64, 2)
-        else match tl1 with
-          | [] => (runeError, 1)
-          | b2 :: tl2 =>
-            if !isCont b2 then (runeError, 1)
-            else if sz ≤ 3 then ((p0 % 16 * 64 + b1 % 64) * 64 + b2 % 64, 3)
-            else match tl2 with
-              | [] => (runeError, 1)
-              | b3 :: _ =>
-                if !isCont b3 then (runeError, 1)
-                else (((p0 % 8 * 64 + b1 % 64) * 64 + b2 % 64) * 64 + b3 % 64, 4)
+    let fi := firstInfo p0
+    if fi.1 = 1 then (p0, 1)                       -- ASCII
+    else if fi.1 = 0 then (runeError, 1)           -- `xx`
+    else decodeMulti fi.1 fi.2.1 fi.2.2 p0 tl
 
 /-- `utf8.ValidRune` -/
 def validRune (r : Nat) : Bool := r < 0xD800 || (0xDFFF < r && r ≤ 0x10FFFF)
